@@ -4,6 +4,8 @@ import Iavl.Model.Proof
 import Iavl.Model.Compress
 import Iavl.Model.Delta
 import Iavl.Model.Importer
+import Iavl.Model.ChangeSet
+import Iavl.Model.Store
 /-
   The executable face of the model: a line-protocol interpreter that answers every operation of a
   history with exactly the definitions the theorems are about (`VTree.step`, `hashNode`, `mkProof`,
@@ -99,8 +101,41 @@ structure XState where
   opened : Bool
   cfgIv : Option Nat
   streams : List (String × List (Option RawNode)) := []
+  cfgFast : Bool := true
+  fastOpen : Bool := true
 
 def init : XState := { vs := initT none, opened := false, cfgIv := none }
+
+/-! ### change sets (C15) -/
+def fmtChange : Change Bytes Bytes → String
+  | .set k v => enc (some k) ++ "=" ++ enc (some v)
+  | .del k => "del:" ++ enc (some k)
+
+def changesOut (vs : VState OT) (a b : Nat) : String :=
+  let first := firstVer vs.versions
+  let latest := latestVer vs.versions
+  let start := max a first
+  let stop := min b latest
+  let rec go (v : Nat) (fuel : Nat) (prevV : Nat) (prev : OT) (acc : String) : String :=
+    match fuel with
+    | 0 => "ok " ++ acc
+    | fuel + 1 =>
+      if v > stop then "ok " ++ acc else
+      match findVer vs.versions v with
+      | none => "err " ++ acc
+      | some cur =>
+        let cs := changeSet prevV prev cur
+        go (v + 1) fuel v cur (acc ++ "v" ++ toString v ++ "{" ++ " ".intercalate (cs.map fmtChange) ++ "}")
+  go start (stop + 2 - start) (start - 1) ((findVer vs.versions (start - 1)).getD none) ""
+
+def parseChanges (s : String) : List (Change Bytes Bytes) :=
+  if s == "-" || s == "" then [] else
+  (s.splitOn ",").filterMap fun tok =>
+    if tok.startsWith "del:" then
+      match dec (tok.drop 4).toString with | some (some k) => some (.del k) | _ => none
+    else match tok.splitOn "=" with
+      | [k, v] => (match dec k, dec v with | some (some k), some (some v) => some (.set k v) | _, _ => none)
+      | _ => none
 
 /-! ### import (C10) -/
 def rawOfExport (n : ExportNode Bytes Bytes) : RawNode := ⟨some n.key, n.value, n.version, n.height⟩
@@ -259,13 +294,25 @@ partial def exec (x : XState) (args : List String) : XState × String :=
   | "fresh" :: _ => ({ init with streams := x.streams }, "ok")
   | "cfg" :: rest =>
     let iv := rest.foldl (fun acc a => if a.startsWith "iv=" then parseIv (a.drop 3).toString else acc) x.cfgIv
-    ({ x with cfgIv := iv }, "ok")
+    let fast := rest.foldl (fun acc a => if a.startsWith "fast=" then a == "fast=1" else acc) x.cfgFast
+    ({ x with cfgIv := iv, cfgFast := fast }, "ok")
   | "open" :: rest =>
     let target := match rest with | t :: _ => t.toNat! | [] => 0
     let (x', r) := stepOp x (.reopen x.cfgIv target)
-    ({ x' with opened := true }, r)
+    ({ x' with opened := true, fastOpen := x.cfgFast }, r)
   | ["close"] => ({ x with opened := false }, "ok")
   | ["dump"] => (x, "?")
+  | "checkdump" :: toks =>
+    let data := " ".intercalate toks
+    let body := ((data.drop 1).dropRight 1).toString
+    let pairs : Option KVPairs := if body == "" then some [] else
+      (body.splitOn " ").mapM fun tok =>
+        match tok.splitOn ":" with
+        | [k, v] => (match unhexGo k.toList, unhexGo v.toList with | some k, some v => some (k, v) | _, _ => none)
+        | _ => none
+    match pairs with
+    | none => (x, "bad dump")
+    | some d => (x, auditDump H x.vs.versions (x.fastOpen && x.opened) d)
   | ["writes"] => (x, "?")
   | _ =>
   if !x.opened then (x, "notree") else
@@ -333,11 +380,35 @@ partial def exec (x : XState) (args : List String) : XState × String :=
     | _, _ => (x, "err")
   | "version" :: _ => (x, toString x.vs.base)
   | "ifempty" :: rest => if x.vs.working.isSome then (x, "skipped") else exec x rest
-  | "savecs" :: _ => (x, "?")
+  | "savecs" :: rest =>
+    let cs := parseChanges (rest.headD "-")
+    let dirty := match x.vs.working with
+      | some (.leaf _ _ none) => true
+      | some (.inner _ _ _ none _ _) => true
+      | _ => false
+    if dirty then (x, "err") else
+    let rec apply (x : XState) : List (Change Bytes Bytes) → Option XState
+      | [] => some x
+      | .set k v :: cs => apply (stepOp x (.set k v)).1 cs
+      | .del k :: cs =>
+        let (x', r) := stepOp x (.remove k)
+        if r == "rm=0" then none else apply x' cs
+    -- a rejected removal leaves the changes applied so far in the working tree
+    let rec applyP (x : XState) : List (Change Bytes Bytes) → XState × Bool
+      | [] => (x, true)
+      | .set k v :: cs => applyP (stepOp x (.set k v)).1 cs
+      | .del k :: cs =>
+        let (x', r) := stepOp x (.remove k)
+        if r == "rm=0" then (x', false) else applyP x' cs
+    let (x1, ok) := applyP x cs
+    if !ok then (x1, "err") else
+    let same := sameRoot x1.vs
+    let (x2, r) := stepOp x1 (.save same)
+    (x2, r)
   | "hold" :: _ => (x, "?")
   | "release" :: _ => (x, "?")
   | "reads" :: _ => (x, "?")
-  | "changes" :: _ => (x, "?")
+  | ["changes", a, b] => (x, changesOut x.vs a.toNat! b.toNat!)
   | _ => (x, immOp (x.vs.base + 1) x.vs.working args)
 
 end Iavl.Exec
